@@ -413,6 +413,9 @@ def replay(cfg, label, env, case):
         return dict(reproduced=True, detail=dict(raised="%s: %s" % (type(e).__name__, e), label=label,
                                                  inputs=_inputs(V, env)))
     fails = LAST["chk"].fails if "chk" in LAST else {}
+    missing = [k for k in V.requested if k not in env]
+    if missing:          # no witness from the solver (e.g. a path kept after an `unknown` feasibility answer):
+        return dict(reproduced=False, detail="model has no value for %s; nothing to replay" % missing[:6])
     if label.startswith("exception:"):
         return dict(reproduced=False, detail="no exception on the real code")
     if label in fails:
